@@ -892,6 +892,92 @@ def session_defaults(ctx, rep, rule):
         rep.ok(rule, "SnmpSession|defaults set in the constructor only", "%d stores, all in __init__" % seen)
 
 
+def errors_propagate(ctx, rep, rule):
+    """The sync session reports what the socket reports: around its socket calls (get, get_many, the refresh exchange and
+    set_keys) the only exception handling is the BlockingIOError -> TimeoutError mapping.  A handler that swallows or
+    retries (an `except X:` that does not re-raise as something) turns an error the caller must see - SnmpAuthError for a
+    Report, the timeout of the discovery probe - into a second request or into a session set up on half the exchange."""
+    m = model(ctx)
+    n = 0
+    for meth in ("get", "get_many", "refresh"):
+        ps = m.paths("sync_client", "SnmpSession", meth)
+        if not ps:
+            rep.missing(rule, "sync_client.SnmpSession.%s" % meth)
+            continue
+        bad = None
+        for p in ps:
+            for i, e in calls(p, lambda f: re.search(r"(\._sock\.\w+|\._refresh_sock)$", f) is not None):
+                n += 1
+                for h in e.handlers:
+                    if h[1] is None or (h[0], h[1]) != ("BlockingIOError", "TimeoutError"):
+                        bad = bad or (e, h)
+        rep.check(rule, "sync_client.SnmpSession.%s|errors propagate" % meth, bad is None, "only BlockingIOError -> TimeoutError",
+                  "%s() is called under `except %s`%s: the error is handled inside the session instead of reaching the caller" %
+                  (bad[0].func if bad else "", bad[1][0] if bad else "", "" if not bad or bad[1][1] is None else " (re-raised as %s)" % bad[1][1]),
+                  loc(ctx, "sync_client", bad[0]) if bad else ctx.py.loc("sync_client", fn_node(ctx, "sync_client", "SnmpSession", meth)), obligation=True)
+    if n < 3:
+        rep.missing(rule, "sync_client: socket calls in get / get_many / refresh (found %d)" % n)
+
+
+def key_classes(ctx, rep, rule):
+    """The key classes of user.py are plain carriers: (a) none defines __len__ / __bool__ - `if self.priv_key` in User asks
+    "is a key configured", an empty key is a configured key that the socket must refuse; (b) the privacy key classes take
+    the key as given - it is aligned later, in User.__init__, to the *authentication* key length (a privacy master key
+    has the size of the auth digest, 20 octets with SHA-1), so an alignment of their own cuts it."""
+    py = ctx.py
+    tree = py.modules.get("user")
+    if tree is None:
+        rep.missing(rule, "module user")
+        return
+    classes = {n.name: n for n in tree.body if isinstance(n, ast.ClassDef)}
+    keyish = [c for c in classes.values() if c.name.endswith("Key") or any(ast.unparse(b).endswith("Key") for b in c.bases)]
+    if len(keyish) < 4:
+        rep.missing(rule, "user.py: key classes (found %d)" % len(keyish))
+        return
+    for c in keyish:
+        for f in [x for x in c.body if isinstance(x, ast.FunctionDef)]:
+            if f.name in ("__len__", "__bool__"):
+                rep.violation(rule, "user.%s.%s" % (c.name, f.name), "%s defines %s: an empty key becomes falsy and every `if key` test in User treats a "
+                              "configured (empty) key as no key - the session silently comes up without it" % (c.name, f.name), py.loc("user", f), obligation=True)
+    rep.ok(rule, "user key classes|truthiness", "%d key classes define neither __len__ nor __bool__" % len(keyish)) if not any(
+        f.name in ("__len__", "__bool__") for c in keyish for f in c.body if isinstance(f, ast.FunctionDef)) else None
+    m = model(ctx)
+    for cn in ("BasePrivKey", "DesKey", "Aes128Key"):
+        c = classes.get(cn)
+        if c is None:
+            continue
+        if not any(isinstance(f, ast.FunctionDef) and f.name == "__init__" for f in c.body):
+            rep.ok(rule, "user.%s|key taken as given" % cn, "no constructor of its own")
+            continue
+        ps = m.paths("user", cn, "__init__") or []
+        odd = [e for p in ps for e in p.events if e.kind == "bind" and e.target == "key"]
+        rep.check(rule, "user.%s|key taken as given" % cn, not odd, "the key is passed on unchanged",
+                  "%s rewrites the key at construction (%s): a privacy master / localized key has the size of the authentication digest, not of the "
+                  "cipher key" % (cn, odd[0].value[:60] if odd else ""), loc(ctx, "user", odd[0]) if odd else py.loc("user", c), obligation=True)
+
+
+def async_never_blocks(ctx, rep, rule):
+    """Nothing that runs on the event loop sleeps: no `async def` of the policer or of the asyncio client calls time.sleep
+    or the policer's wait_sync (a blocking pause of one session stalls the deadlines of every other session of the loop)."""
+    m = model(ctx)
+    n = 0
+    for mod in ("policer", "async_client"):
+        for cls, meths in sorted(m.classes.get(mod, {}).items()):
+            for meth, node in sorted(meths.items()):
+                if not isinstance(node, ast.AsyncFunctionDef):
+                    continue
+                n += 1
+                bad = None
+                for p in m.paths(mod, cls, meth) or []:
+                    for i, e in calls(p, lambda f: f in ("sleep", "time.sleep") or f.endswith(".wait_sync")):
+                        bad = bad or e
+                rep.check(rule, "%s.%s.%s|no blocking sleep" % (mod, cls, meth), bad is None, "",
+                          "async %s.%s calls %s: the event loop is blocked for the whole pause" % (cls, meth, bad.func if bad else ""),
+                          loc(ctx, mod, bad) if bad else ctx.py.loc(mod, node), obligation=True)
+    if n < 5:
+        rep.missing(rule, "async methods of policer / async_client (found %d)" % n)
+
+
 def passthrough(ctx, rep, rule):
     """The thin Python wrappers add nothing of their own: __iter__/__aiter__ return self and touch no state (a walk that is
     re-iterated continues, it does not restart); get()/get_many() return what the socket returned, untouched."""
